@@ -3,6 +3,7 @@ import Mathlib.Tactic.Linarith
 import PyPhysim.Proofs.GrayGenerated
 import PyPhysim.Proofs.C15Geom
 import PyPhysim.Proofs.C15QamRepaired
+import PyPhysim.Proofs.C15Robust
 
 /-!
 # C15 — Gray conversion is a bijection; constellations are Gray labelled
@@ -206,6 +207,128 @@ theorem setPhaseOffset_not_gray :
 
 /-- non-vacuity: the hypotheses of `psk_gray` are met by 8-PSK labels 2 and 6 -/
 example : ringAdjacent (2^3) (pskPosInit gray2binary 2) (pskPosInit gray2binary 6) = true := by
+  decide +kernel
+
+/-! ## R15 — distinct values that are merely close
+
+The model never rounds, thresholds or compares a value "up to a tolerance": it is a function of the
+exact value.  These statements make that explicit for every place where C15's code takes a value:
+index arrays (bit errors, conversions) and the phase offset of a PSK object. -/
+open PyPhysim.C15R in
+/-- `count_bit_errors` reports zero errors only for *equal* index arrays — never for arrays that are
+    merely close (2400000000 vs 2400020000, `n` vs `n+1` above 2^53, …). -/
+theorem bit_errors_zero_only_if_equal (h : Heap) (i j : Nat) (hl : (h i).length = (h j).length) :
+    result h (.biterr i j) = .num 0 ↔ h i = h j := by
+  rw [result_biterr, Out.num.injEq, hamming_sum_eq_zero_iff _ _ hl]
+
+/-- two distinct integers of the 64-bit range, however close, have distinct Gray codes and distinct
+    decoded values (a conversion by lookup / cache must key on the exact integer). -/
+theorem close_integers_distinct_codes (a b : Nat) (ha : a < 2^64) (hb : b < 2^64) (hne : a ≠ b) :
+    binary2gray a ≠ binary2gray b ∧ gray2binary a ≠ gray2binary b := by
+  refine ⟨fun h => hne (gray_injective a b ha hb h), fun h => hne ?_⟩
+  have e := (gray_roundtrip a ha).2
+  rw [h, (gray_roundtrip b hb).2] at e
+  exact e.symm
+
+/-- non-vacuity of `close_integers_distinct_codes`: two carrier-like values a relative 1e-5 apart -/
+example : (2400000000 : Nat) < 2^64 ∧ (2400020000 : Nat) < 2^64 ∧ (2400000000 : Nat) ≠ 2400020000 := by decide
+
+open PyPhysim.C15R PyPhysim.C01 in
+/-- `setPhaseOffset φ` takes effect for EVERY value: the table afterwards is the natural
+    constellation at `φ` itself, whatever the offset was before … -/
+theorem setter_takes_effect_for_every_new_value {α : Type} [Trig α] [Add α] [Mul α] [Div α] [NatCast α]
+    (s : Psk α) (φ : α) :
+    (s.setOffset φ).offset = φ ∧
+    (s.setOffset φ).table = (List.range s.M).map (fun l => pskNaturalPoint s.M l φ) := ⟨rfl, rfl⟩
+
+open PyPhysim.C15R PyPhysim.C01 in
+/-- … and over ℝ a new value that differs from the old one (by less than a full turn, in
+    particular by 1e-15 or by one unit in the last place) gives a table different from the old
+    one at label 0 — so "unchanged → skip" is never right for a close-but-different value. -/
+theorem close_offsets_distinct_tables (s : Psk ℝ) (φ : ℝ) (hM : 1 ≤ s.M)
+    (hne : φ ≠ s.offset) (hlt : |φ - s.offset| < 2 * Real.pi) :
+    (s.setOffset φ).table[0]? ≠ s.table[0]? := by
+  have hM' : 0 < s.M := hM
+  have hp : s.pos 0 = 0 := by
+    unfold Psk.pos; split
+    · exact gray2binary_zero
+    · rfl
+  simp only [Psk.table, Psk.setOffset, List.getElem?_map, List.getElem?_range hM', Option.map_some, hp]
+  intro h
+  exact psk_offset_point_ne s.M 0 φ s.offset hne hlt (Option.some.inj h)
+
+open PyPhysim.C15R PyPhysim.C01 in
+/-- the two tables are exactly `2·|sin(δ/2)|` apart at every position (`δ` the offset difference):
+    the margin by which the harness separates close offsets is computed from this. -/
+theorem close_offsets_separation (M k : Nat) (φ₁ φ₂ : ℝ) :
+    dist2 (pskNaturalPoint M k φ₁) (pskNaturalPoint (α := ℝ) M k φ₂)
+      = (2 * Real.sin ((φ₁ - φ₂) / 2)) ^ 2 := psk_offset_dist2 M k φ₁ φ₂
+
+open PyPhysim.C15R PyPhysim.C01 in
+/-- after any history of `setPhaseOffset` calls the object is the one the LAST value describes
+    (no value of the history is skipped, merged with a neighbour or kept from before). -/
+theorem offset_history_last_wins {α : Type} [Trig α] [Add α] [Mul α] [Div α] [NatCast α]
+    (s : Psk α) (φs : List α) (φ : α) :
+    (s.run (φs ++ [φ])).table = (List.range s.M).map (fun l => pskNaturalPoint s.M l φ) := by
+  rw [Psk.run_snoc]; rfl
+
+/-- non-vacuity of `close_offsets_distinct_tables`: 0.3 and its successor in binary64 -/
+example : ∃ (s : PyPhysim.C15R.Psk ℝ) (φ : ℝ), 1 ≤ s.M ∧ φ ≠ s.offset ∧ |φ - s.offset| < 2 * Real.pi :=
+  ⟨⟨8, 5404319552844595 / 18014398509481984, false⟩, 5404319552844596 / 18014398509481984,
+    by decide, by norm_num, by
+      have := Real.two_le_pi
+      show |(5404319552844596 / 18014398509481984 : ℝ) - 5404319552844595 / 18014398509481984| < 2 * Real.pi
+      rw [abs_lt]; constructor <;> norm_num <;> linarith⟩
+
+/-! ## R16 — argument identity and buffer reuse
+
+`Heap`/`Op`/`run` (Model/C15Robust.lean): the caller owns numbered index buffers, refills them in
+place and calls the conversions / counters on them. -/
+open PyPhysim.C15R in
+/-- the `k`-th operation of a history returns what a fresh call returns on the contents the
+    caller's own refills have produced by then — nothing of earlier calls is remembered. -/
+theorem call_reads_contents_at_call_time (h : Heap) (pre post : List Op) (op : Op) :
+    (run h (pre ++ op :: post)).2[pre.length]? = some (result (run h (refillsOnly pre)).1 op) := by
+  rw [run_append, ← run_heap_refills]
+  simp only [run]
+  rw [List.getElem?_append_right (by rw [run_length])]
+  simp [run_length]
+
+open PyPhysim.C15R in
+/-- results handed out earlier are not changed by later refills and calls -/
+theorem earlier_results_unchanged_by_later_calls (h : Heap) (a b : List Op) :
+    (run h (a ++ b)).2.take a.length = (run h a).2 := by
+  rw [run_append]
+  simp [run_length]
+
+open PyPhysim.C15R in
+/-- calls never write to the caller's buffers: after any history they hold what the refills put there -/
+theorem calls_leave_buffers_unchanged (h : Heap) (ops : List Op) :
+    (run h ops).1 = (run h (refillsOnly ops)).1 := run_heap_refills h ops
+
+open PyPhysim.C15R in
+/-- a result depends on the *contents* of the argument buffers only, not on which buffer (object)
+    carries them: an equal-content copy gives the same result. -/
+theorem result_depends_on_contents_only (h h' : Heap) (i i' j j' : Nat) (hi : h i = h' i') (hj : h j = h' j') :
+    result h (.b2g i) = result h' (.b2g i') ∧ result h (.g2b i) = result h' (.g2b i') ∧
+    result h (.cbits i) = result h' (.cbits i') ∧ result h (.xor i j) = result h' (.xor i' j') ∧
+    result h (.biterr i j) = result h' (.biterr i' j') := by
+  simp only [result, hi, hj, and_self]
+
+open PyPhysim.C15R in
+/-- the same buffer in both roles: no bit errors against itself, xor with itself is all zero -/
+theorem same_buffer_in_both_roles (h : Heap) (i : Nat) :
+    result h (.biterr i i) = .num 0 ∧ result h (.xor i i) = .arr (List.replicate (h i).length 0) := by
+  constructor
+  · simp only [result, mapE_count_bits_self, sum_replicate_zero]
+  · simp only [result, zipWith_xor_self]
+
+/-- non-vacuity / worked history: refill, convert, refill the SAME buffer, convert again, compare the
+    buffer with itself and with a second one -/
+example : (PyPhysim.C15R.run PyPhysim.C15R.emptyHeap
+    [.refill 0 [5, 6], .b2g 0, .refill 0 [2400000000, 7], .b2g 0, .refill 1 [2400020000, 7],
+     .biterr 0 0, .biterr 0 1]).2
+    = [.none, .arr [7, 5], .none, .arr [3364590592, 4], .none, .num 0, .num 7] := by
   decide +kernel
 
 end PyPhysim.C15
